@@ -139,7 +139,7 @@ pub fn run(env: &Env) -> Rec {
     for cp in bounds {
         check_cp(env, None, cp, &mut rec);
     }
-    let n_rand = env.n(1_000_000, 50_000_000);
+    let n_rand = env.n(10_000_000, 400_000_000);
     let per = 50_000usize;
     let r2 = par(n_rand / per, |i, rec| {
         let mut rng = Rng::stream(env.seed, 0x14_0000 + i as u64);
